@@ -86,6 +86,17 @@ class TextLab:
             return self.get(aa[1], W), exc
         raise ValueError(how)
 
+    def setitem(self, T, old, i, c):
+        """a[i] = the unit c (as a character / integer); returns units after or the exception name"""
+        a = self.array(T, old)
+        W = self.W(T)
+        try:
+            a[i] = (c if c < 128 or T == "unsigned char" else c - 256) if T in ("signed char", "unsigned char") else (
+                bytes([c]) if W == 1 else chr(c))
+        except Exception as e:
+            return type(e).__name__
+        return self.get(a, W)
+
     # ---- ffi.new with a string initializer
     def new(self, T, decl, s, how):
         """returns (units after, ffi.string(result) as code points, exception or '')"""
